@@ -66,6 +66,10 @@ def cursor_inputs():
            0x3ffffff, 0x4000000, 0x7fffffff, 0x80000000, 0xffffffff, 0x20ac, 0x1f680, 0xe9]
     for cp in cps:
         out.append(b'cpenc ' + hx(cp.to_bytes(4, 'big')).encode())
+    for v in cps + [0xff, 0x100, 0xfff, 0x1000, 0xffff, 0x10000, 0xfffff, 0x100000, 0x1000000, 0x10000000, 0xf0000000, 0x0f000000, 0x00f00000,
+                    0x000f0000, 0x12345678, 0xabcdef01, 0x00100000, 0x01000001, 0x10]:
+        out.append(b'hex2 ' + hx(v.to_bytes(4, 'big')).encode())
+        out.append(b'hexmin4 ' + hx(v.to_bytes(4, 'big')).encode())
     escs = []
     for cp in cps:
         for fmt in ('%x', '%X', '%08x', '%09x', '%04X'):
@@ -80,6 +84,18 @@ def cursor_inputs():
             b'ab%123456789%', b'ab%12345678%cd', b'%20ac%%1f680%', b'%e9%=%E9%', b'\x80\xff', b'\xc3\xa9=1', b'a\x00b', b'%\x00', b'a%41%%42%c d', b'%41',
             b'%41% ', b'x%41%,y', b'%d800%', b'%110000%', b'%ffffffff%', b'%7f%%80%%7ff%%800%%ffff%%10000%', b'@', b'a@b', b'\n', b'a\nb', b'a%a%%A%%0a%',
             b'%%%%', b'%%%', b'a%%b%', b'%g', b'ab%1', b'abc%zz%', b'a' * 70, b'%41%' * 20, b'a%20' * 3]
+    for c in (b'=', b',', b'@', b'x', b'\x00', b'\x80', b'\xff', b' '):
+        for x in (b'', b'=', b',', b'=1', b',=', b'\x80', b'\xff', b'@x', b'x', b' ', b'\x00='):
+            out.append(b'oplchar ' + hx(c + x).encode())
+    encs = [b'', b'a', b'a b', b'%', b'=,@ \t\n', b'\x7f', b'\xc2\x80', b'\xc2\xa0\xc2\xa1\xc2\xac\xc2\xad\xc2\xae', b'\xd7\xbf\xd8\x80', b'\xe2\x82\xac',
+            b'\xf0\x9f\x9a\x80', b'\xf4\x8f\xbf\xbf', b'\xf4\x90\x80\x80', b'\xf7\xbf\xbf\xbf', b'\xed\xa0\x80', b'\xc0\x80', b'\xe0\x80\x80', b'ab\x80',
+            b'ab\xff', b'ab\xf8', b'ab\xc3', b'ab\xe2\x82', b'ab\xf0\x9f\x9a', b'ab\xc3x', b'\xe2x\xac', b'a\x00b', b'\x01\x1f', b'\xc3\xa9\xc3',
+            b'!$&+-<>?A~', b'\xef\xbf\xbf', b'\xef\xbf\xbe', b'\xe0\xa0\x80', b'\xdf\xbf', b'x' * 40 + b'\xe2\x82\xac' * 5]
+    for b0 in range(1, 256):
+        encs.append(bytes([b0]))
+        encs.append(bytes([b0, 0x80, 0xbf, 0x80]))
+    for x in encs:
+        out.append(b'oplenc ' + hx(x).encode())
     for x in strs:
         out.append(b'oplstring ' + hx(x).encode())
         out.append(b'oplstring ' + hx(x + b' tail').encode())
